@@ -254,6 +254,16 @@ def rule_once(chk):
                 why = ("single use is enforced by testing the flag `%s` and setting it in a separate statement with no lock held: two threads can both pass the test "
                        "(check-then-set), so f runs twice" % flag)
     chk.req(ok, "C06.once", "preserve_context:single-use-is-atomic", where, good=why, fail=why, sites=len(cfg.live))
+    # the serialized id is consumed only by the one accepted call: a rejected call must not continue the task
+    ct_ = ctx.func("_action", "Action.continue_task")
+    enters_ = [w_ for w_ in cfg.live if w_.kind == "with_enter" and isinstance(w_.info["item"].context_expr, ast.Call) and ct_ in ctx.targets(g, w_.info["item"].context_expr)]
+    enters_ += [n_ for n_ in cfg.live if n_.kind != "with_enter" for c_, m_ in calls_in_node(n_) if ct_ in ctx.targets(g, c_)]
+    guards_ = [t for t in cfg.live if t.kind == "test" and any(isinstance(x, ast.Call) and isinstance(x.func, ast.Attribute) and x.func.attr == "acquire" for x in ast.walk(t.exprs[0]))]
+    guards_ += [t for t in cfg.live if t.kind == "test" and any(cfg.edge_dominates(t, l, n_) for n_, c_ in fcalls for l in ("true", "false")) and t not in guards_]
+    okorder = bool(enters_) and bool(guards_) and all(cfg.precedes(guards_, [e_])[0] for e_ in enters_)
+    chk.req(okorder, "C06.once", "preserve_context:rejected-calls-log-nothing", where,
+            good="the single-use guard is passed before the task is continued",
+            fail="the task is continued (continue_task) before the single-use guard is checked: every rejected extra call logs a start and a failed end at the one reserved position, colliding with the accepted call's messages")
     # TooManyCalls on the failing arm
     raises = [n for n in cfg.live if n.kind == "raise_stmt" and "TooManyCalls" in unparse(n.ast)]
     chk.req(bool(raises), "C06.once", "preserve_context:later-calls-raise-TooManyCalls", where, good="raise TooManyCalls on the failing arm",
@@ -330,6 +340,7 @@ def run(chk):
     c09.rule_model(chk, prefix="C06")   # the remote sub-tree is attached by (task_uuid, task_level) alone
     c09.rule_add_dispatch(chk)
     c09.rule_upward(chk)
-    from . import integration
+    from . import integration, c10
+    c10.rule_line(chk, prefix="C06", flush=False)  # 'to any destination': lines of the two sides sharing one file are never torn
     integration.dask_continuation(chk, chk.pid)  # eliot.dask hands one serialized id to each wrapped task
     common.rule_forwarding(chk, "C06", keys=[("_action", "Action.continue_task"), ("_action", "Action.child"), ("_action", "Action.__init__")])
